@@ -359,7 +359,15 @@ func TestVerifDecoderWorker(t *testing.T) {
 			put("B", vdBegin{Si: si, Ci: ci, InLen: len(fin), Case: c, Hex: hx})
 			r, exit := vdGuard(func() ([]string, error) { return run(fin) })
 			if !exit && r.Alloc > vdAllocBoundKiB(len(fin), s.comp) {
-				r.ASite = vdAllocSite(func() ([]string, error) { return run(fin) })
+				for try := 0; try < 3 && (r.ASite == "-" || r.ASite == "?"); try++ {
+					r.ASite = vdAllocSite(func() ([]string, error) { return run(fin) })
+				}
+				if r.ASite == "?" { // heap profile did not name it: the panic site, else who read the mutated cell
+					r.ASite = "-"
+					if r.Site == "-" && c.Caller != "-" {
+						r.ASite = c.Caller
+					}
+				}
 			}
 			put("R", r)
 			if exit {
